@@ -75,9 +75,9 @@ def strategy(tier):
         env_tail=st.sampled_from([b"", b"", b"\0garbage=1\0", b"\0\0\0", b"\0x"]),
         exe=st.sampled_from(["plain", "plain", "nul", "deleted-gone",
                              "deleted-exists", "withheld", "withheld",
-                             "withheld"]),
+                             "withheld", "deleted-then-nul", "nul-then-deleted"]),
         cwd=st.sampled_from(["plain", "nul", "deleted-gone", "deleted-exists",
-                             "withheld"]),
+                             "withheld", "deleted-then-nul", "nul-then-deleted"]),
         cand=st.sampled_from(["file-x", "file-x", "file-nox", "dir", "absent"]),
         zombie=st.sampled_from([False, False, False, False, True]),
         # how the kernel withholds a link of a live process: readlink fails
@@ -94,6 +94,11 @@ def link_target(kind, base, k):
         return base, base
     if kind == "nul":
         return base + "\x00 (deleted)\x00junk", base
+    if kind == "deleted-then-nul":
+        # stale suffix first, then NUL garbage: cut at the NUL, then drop the suffix
+        return base + " (deleted)\x00junk", base
+    if kind == "nul-then-deleted":
+        return base + "\x00new (deleted)", base
     if kind == "deleted-gone":
         return base + " (deleted)", base
     if kind == "deleted-exists":
